@@ -644,14 +644,17 @@ func c20hemi(c *Ctx, r *Report, pr *prover, fn *ssa.Function, where string, lett
 			case !lat && sign < 0:
 				allowed = "W"
 			case lat:
-				allowed = "NS "
+				allowed = "NS" // on the equator either letter is correct - but it must be a letter
 			default:
-				allowed = "EW "
+				allowed = "EW"
 			}
 			if strings.Contains(allowed, ch) {
 				o.OK("branch structure selects %q", ch)
 			} else {
 				o.Bad("a %s %s is printed with hemisphere letter %q (expected one of %q)", sname, kind, ch, allowed)
+				if sign == 0 && ch == " " {
+					o.Reason = fmt.Sprintf("a %s of exactly zero is printed with a blank instead of a hemisphere letter (%q expected): the line does not have the form the position report requires", kind, allowed)
+				}
 			}
 		}
 	}
